@@ -72,9 +72,11 @@ func writtenPaths(spec LockSpec, fns []*ssa.Function) map[string]bool {
 }
 
 type tsDefer struct {
-	kind    string // "unlock" | "closure"
+	kind    string // "unlock" | "closure" | "helper"
 	tok     string
 	closure *ssa.MakeClosure
+	helper  *ssa.Function // "helper": a deferred static call of a helper interpreted inline, with its arguments
+	args    []ssa.Value
 	pos     token.Pos
 }
 
@@ -341,6 +343,13 @@ func (ts *TS) cellOf(c *tsCtx, addr ssa.Value) ssa.Value {
 	case *ssa.FreeVar:
 		if c.env != nil && c.parent != nil {
 			if b, ok := c.env[a]; ok {
+				return ts.cellOf(c.parent, b)
+			}
+		}
+	case *ssa.Parameter:
+		// an inlined helper handed the address of its caller's cell (`walkCleanup(&ref, &newref, …)`)
+		if c.penv != nil && c.parent != nil {
+			if b, ok := c.penv[a]; ok {
 				return ts.cellOf(c.parent, b)
 			}
 		}
@@ -639,6 +648,10 @@ func (ts *TS) step(c *tsCtx, s *tsState, in ssa.Instruction, depth int) []*tsSta
 		}
 		// other deferred calls: treated as calls at rundefers time with no lock effect unless summarised
 		if f := staticCallee(&x.Call); f != nil && ts.p.InModule(f) {
+			if sum := ts.summary(f); sum != nil && sum.inline {
+				s.defers = append(s.defers, tsDefer{kind: "helper", helper: f, args: x.Call.Args, pos: x.Pos()})
+				return []*tsState{s}
+			}
 			if sum := ts.summary(f); sum != nil && sum.touchesLocks && (sum.returnsLocked || len(sum.requiresHeld) > 0 || sum.acquiresTable) {
 				ts.violate("typestate/unsupported", fnName(c.fn)+": deferred call of lock-affecting function "+fnName(f), x.Pos(), "deferred call with lock effects is not modelled: undecided")
 			}
@@ -679,6 +692,20 @@ func (ts *TS) runDefers(c *tsCtx, s *tsState, depth int) []*tsState {
 				for j, fv := range fn.FreeVars {
 					if j < len(d.closure.Bindings) {
 						cc.env[fv] = d.closure.Bindings[j]
+					}
+				}
+				saved := st.defers
+				st.defers = nil
+				for _, f := range ts.runBody(cc, st, depth+1) {
+					f.s.defers = saved
+					next = append(next, f.s)
+				}
+			case "helper":
+				fn := d.helper
+				cc := &tsCtx{fn: fn, fa: ts.p.FA(fn), penv: map[*ssa.Parameter]ssa.Value{}, parent: c, entry: c.entry, rootFn: c.rootFn, prefix: c.prefix + fn.Name() + "/"}
+				for j, prm := range fn.Params {
+					if j < len(d.args) {
+						cc.penv[prm] = d.args[j]
 					}
 				}
 				saved := st.defers
@@ -780,8 +807,19 @@ func (ts *TS) call(c *tsCtx, s *tsState, call *ssa.Call, depth int) []*tsState {
 			saved := st.defers
 			st.defers = nil
 			var out []*tsState
+			e := errResult(call)
 			for _, fin := range ts.runBody(cc, st, depth+1) {
 				fin.s.defers = saved
+				// what this exit of the helper says about the error the caller goes on to test
+				if e != nil && fin.ret != nil && len(fin.ret.Results) > 0 {
+					rv := fin.ret.Results[len(fin.ret.Results)-1]
+					k := ts.errEqNilKey(c, e)
+					if isNilConst(rv) {
+						fin.s.preds[k] = true
+					} else if _, fresh := rv.(*ssa.MakeInterface); fresh || knownNonNilAt(rv, fin.ret) {
+						fin.s.preds[k] = false
+					}
+				}
 				out = append(out, fin.s)
 			}
 			if len(out) > 0 {
@@ -1057,6 +1095,9 @@ func (ts *TS) summary(f *ssa.Function) *fnSummary {
 				} else {
 					unlocks++
 					o := stripConv(owner)
+					if u, ok := o.(*ssa.UnOp); ok && u.Op == token.MUL {
+						o = stripConv(u.X) // (*p).Unlock(): the parameter is the address of its caller's variable
+					}
 					for i, p := range f.Params {
 						if p == o {
 							unlockedParam[i] = true
@@ -1169,7 +1210,7 @@ func (ts *TS) summary(f *ssa.Function) *fnSummary {
 		}
 	}
 	if actsOnCaller && !sum.returnsLocked && f.Parent() == nil && f.Object() != nil && !f.Object().Exported() {
-		if sites, exact := ts.p.staticCallSites(f); exact && len(sites) > 0 {
+		if n, exact := ts.p.callOrDeferSites(f); exact && n > 0 {
 			sum.inline = true
 		}
 	}
